@@ -89,7 +89,11 @@ def member_objects(types, colors, extra=()):
     """every (type, status, colour) object of a space"""
     out = []
     for t in list(types) + list(extra):
-        if t is Door:
+        if t.__name__ == 'Gate':
+            out += [t(s, c) for s in Door.Status for c in colors]
+        elif t.__name__ == 'Countdown':
+            out += [t(k) for k in (0, 1, 2, 127, 128, 255, 256, 257, 299)]
+        elif t is Door:
             out += [Door(s, c) for s in Door.Status for c in colors]
         elif t in (Key, Telepod, Beacon, Exit):
             out += [t(c) for c in colors]
